@@ -216,7 +216,11 @@ func (rt *runtime) cmplEvaluateNodeCallExpression(node *nodeCallExpression, with
 		case *propertyReference:
 			name = rf.name
 			this = objectValue(rf.base)
-			eval = rf.name == "eval" // Possible direct eval
+			// Possible direct eval: an identifier resolved through an object environment
+			// record (global object, with); o.eval(...) is never a direct eval (15.1.2.1.1)
+			if _, isIdentifier := node.callee.(*nodeIdentifier); isIdentifier {
+				eval = rf.name == "eval"
+			}
 		case *stashReference:
 			// TODO ImplicitThisValue
 			name = rf.name
